@@ -73,12 +73,28 @@ func driveFCall(c *Ctx) error {
 				spec.RefineResult = func(b *cty.RefinementBuilder) *cty.RefinementBuilder { return b.NotNull() }
 			}
 			f := function.New(spec)
+			call := f.Call
+			switch w, _ := sj["wrap"].(string); w {
+			case "redesc":
+				n := len(spec.Params)
+				if spec.VarParam != nil {
+					n++
+				}
+				f = f.WithNewDescriptions("described again", make([]string, n))
+				call = f.Call
+			case "unpred":
+				f = function.Unpredictable(f)
+				call = f.Call
+			case "proxy":
+				px := f.Proxy()
+				call = func(a []cty.Value) (cty.Value, error) { return px(a...) }
+			}
 			args := concretizeArgs(asL(aj), 0)
 			ev := J{"ev": "fcall", "spec": sj, "args": projectArgs(args)}
 			// the call
 			var v cty.Value
 			var err error
-			p, msg := guard(func() { v, err = f.Call(args) })
+			p, msg := guard(func() { v, err = call(args) })
 			switch {
 			case p:
 				ev["out"] = J{"ok": false, "fail": "panic", "msg": trunc(msg)}
